@@ -199,6 +199,18 @@ def o_lose_reconnect_clean(ad, a, b, c):
     return [("lose", ad, a % 3)] + _reconnect(ad, a, b, c, 1, True)
 
 
+def o_resume_with_publish(ad, a, b, c):
+    """loss, then a rebuilt protocol with a (possibly larger) window that publishes between connect()
+    and CONNACK -- the path where held-back messages are released before the resumption runs"""
+    ops = [("lose", ad, a % 3), ("build", ad), ("handlers", ad, 7), ("window", ad, 1 + b % 4),
+           ("connect", ad, 0, (a >> 2) & 1 if (a >> 3) & 3 == 0 else 0, 0)]
+    for j in range(1 + (c & 1)):
+        ops.append(("publish", ad, (c >> (1 + 2 * j)) % 3, 0, 0, 0, 0))
+    if (c >> 6) & 1 or True:
+        ops.append(("rx", ad, "CONNACK", 0, b & 1))
+    return ops
+
+
 class Table(object):
     """cumulative weight table over 256 slots"""
 
